@@ -234,38 +234,40 @@ def three_d(ctx, k, K):
                 ok, r = call(f)
                 if ok:
                     ctx.fail(cid, site, 'no-raise', dict(P0, entry=en.split('/')[0], mode='vector-s', s=on), '%s accepted a vector of s containing %s' % (en, on))
-        # ---------------- vector of s
-        sv = [s for _, s in SL[:7]]
-        for en, f, one, site in (
-                ('SO3.interp/vec', lambda: sm.SO3(R1.copy()).interp(list(sv), start=sm.SO3(R0.copy())), lambda s: sm.SO3(R1.copy()).interp(s, start=sm.SO3(R0.copy())), 'SO3.interp'),
-                ('SE3.interp/vec', lambda: sm.SE3(ref.rt(R1, (1.0, 2, 3))).interp(np.array(sv), start=sm.SE3(ref.rt(R0, (0.5, -1, 0)))),
-                 lambda s: sm.SE3(ref.rt(R1, (1.0, 2, 3))).interp(s, start=sm.SE3(ref.rt(R0, (0.5, -1, 0)))), 'SE3.interp'),
-                ('UnitQuaternion.interp/vec', lambda: sm.UnitQuaternion(q0.copy()).interp(list(sv), dest=sm.UnitQuaternion(q1.copy())),
-                 lambda s: sm.UnitQuaternion(q0.copy()).interp(s, dest=sm.UnitQuaternion(q1.copy())), 'UnitQuaternion.interp'),
-                ('UnitQuaternion.interp/vec/short=1/sign=-1', lambda: sm.UnitQuaternion(q0.copy()).interp(list(sv), dest=sm.UnitQuaternion(-q1, norm=False, check=False), shortest=True),
-                 lambda s: sm.UnitQuaternion(q0.copy()).interp(s, dest=sm.UnitQuaternion(-q1, norm=False, check=False), shortest=True), 'UnitQuaternion.interp'),
-                ('UnitQuaternion.interp/vec/short=1/sign=1', lambda: sm.UnitQuaternion(q0.copy()).interp(np.array(sv), dest=sm.UnitQuaternion(q1.copy()), shortest=True),
-                 lambda s: sm.UnitQuaternion(q0.copy()).interp(s, dest=sm.UnitQuaternion(q1.copy()), shortest=True), 'UnitQuaternion.interp'),
-                ('UnitQuaternion.interp/vec/short=0/sign=-1', lambda: sm.UnitQuaternion(q0.copy()).interp(list(sv), dest=sm.UnitQuaternion(-q1, norm=False, check=False)) if th >= 0.5 else None,
-                 lambda s: sm.UnitQuaternion(q0.copy()).interp(s, dest=sm.UnitQuaternion(-q1, norm=False, check=False)), 'UnitQuaternion.interp')):
-            cid = '%s/%s' % (base, en)
-            if not ctx.want(cid):
+        # ---------------- vector of s: ascending, unsorted with repeated end values, descending (element j belongs to s[j])
+        for svn, sv in (('', [s for _, s in SL[:7]]), ('/unsorted', [0.3, 1.0, 0.77, 0.0, 0.5, 1.0, 1e-12]), ('/descending', [1.0, 0.5, 0.3, 0.0])):
+            if svn and (th < 1e-3 or not alph.thin(base, 'quick', 2, 2)):
                 continue
-            ctx.case(cid, key=cid)
-            P = dict(P0, entry=en.split('/')[0], mode='vector-s')
-            ok, seq = call(f)
-            if ok and seq is None:
-                continue            # pair excluded for this mode (nearly antipodal without shortest)
-            if not ok:
-                ctx.fail(cid, site, 'raises:' + type(seq).__name__, P, 'vector of s raised %r' % (seq,))
-                continue
-            if not hasattr(seq, 'data') or len(seq.data) != len(sv):
-                ctx.fail(cid, site, 'mismatch', dict(P, what='count'), 'vector of %d s values gave %s' % (len(sv), type(seq).__name__))
-                continue
-            for j, s in enumerate(sv):
-                ok1, o = call(one, s)
-                if ok1 and min(ref.maxdiff(seq.data[j], o.data[0]), ref.maxdiff(seq.data[j], -np.asarray(o.data[0])) if en.startswith('Unit') else 9) > 1e-12:
-                    ctx.fail(cid, site, 'mismatch', dict(P, what='value', j=j), 'element %d of the sequence differs from the scalar call' % j)
+            for en, f, one, site in (
+                    ('SO3.interp/vec', lambda: sm.SO3(R1.copy()).interp(list(sv), start=sm.SO3(R0.copy())), lambda s: sm.SO3(R1.copy()).interp(s, start=sm.SO3(R0.copy())), 'SO3.interp'),
+                    ('SE3.interp/vec', lambda: sm.SE3(ref.rt(R1, (1.0, 2, 3))).interp(np.array(sv), start=sm.SE3(ref.rt(R0, (0.5, -1, 0)))),
+                     lambda s: sm.SE3(ref.rt(R1, (1.0, 2, 3))).interp(s, start=sm.SE3(ref.rt(R0, (0.5, -1, 0)))), 'SE3.interp'),
+                    ('UnitQuaternion.interp/vec', lambda: sm.UnitQuaternion(q0.copy()).interp(list(sv), dest=sm.UnitQuaternion(q1.copy())),
+                     lambda s: sm.UnitQuaternion(q0.copy()).interp(s, dest=sm.UnitQuaternion(q1.copy())), 'UnitQuaternion.interp'),
+                    ('UnitQuaternion.interp/vec/short=1/sign=-1', lambda: sm.UnitQuaternion(q0.copy()).interp(list(sv), dest=sm.UnitQuaternion(-q1, norm=False, check=False), shortest=True),
+                     lambda s: sm.UnitQuaternion(q0.copy()).interp(s, dest=sm.UnitQuaternion(-q1, norm=False, check=False), shortest=True), 'UnitQuaternion.interp'),
+                    ('UnitQuaternion.interp/vec/short=1/sign=1', lambda: sm.UnitQuaternion(q0.copy()).interp(np.array(sv), dest=sm.UnitQuaternion(q1.copy()), shortest=True),
+                     lambda s: sm.UnitQuaternion(q0.copy()).interp(s, dest=sm.UnitQuaternion(q1.copy()), shortest=True), 'UnitQuaternion.interp'),
+                    ('UnitQuaternion.interp/vec/short=0/sign=-1', lambda: sm.UnitQuaternion(q0.copy()).interp(list(sv), dest=sm.UnitQuaternion(-q1, norm=False, check=False)) if th >= 0.5 else None,
+                     lambda s: sm.UnitQuaternion(q0.copy()).interp(s, dest=sm.UnitQuaternion(-q1, norm=False, check=False)), 'UnitQuaternion.interp')):
+                cid = '%s/%s%s' % (base, en, svn)
+                if not ctx.want(cid):
+                    continue
+                ctx.case(cid, key=cid)
+                P = dict(P0, entry=en.split('/')[0], mode='vector-s')
+                ok, seq = call(f)
+                if ok and seq is None:
+                    continue            # pair excluded for this mode (nearly antipodal without shortest)
+                if not ok:
+                    ctx.fail(cid, site, 'raises:' + type(seq).__name__, P, 'vector of s raised %r' % (seq,))
+                    continue
+                if not hasattr(seq, 'data') or len(seq.data) != len(sv):
+                    ctx.fail(cid, site, 'mismatch', dict(P, what='count'), 'vector of %d s values gave %s' % (len(sv), type(seq).__name__))
+                    continue
+                for j, s in enumerate(sv):
+                    ok1, o = call(one, s)
+                    if ok1 and min(ref.maxdiff(seq.data[j], o.data[0]), ref.maxdiff(seq.data[j], -np.asarray(o.data[0])) if en.startswith('Unit') else 9) > 1e-12:
+                        ctx.fail(cid, site, 'mismatch', dict(P, what='value', j=j), 'element %d of the sequence differs from the scalar call' % j)
 
 
 def two_d(ctx):
